@@ -53,12 +53,32 @@ def _vote(kind, cands):
 
 def generate(rng, tier):
     cfg = TIERS[tier]
-    kind = rng.wpick([("pilot", 4), ("rates", 3), ("polling", 2), ("direct", 3), ("interleave", 1)])
+    kind = rng.wpick([("pilot", 4), ("rates", 3), ("polling", 2), ("direct", 3), ("interleave", 1), ("audit", 2)])
     case = {"kind": kind}
     if kind == "interleave":
         case["n"] = [rng.randint(0, rng.pick([3, 20, 200])) for _ in range(2)] + [rng.randint(1, rng.pick([3, 20, 200]))]
         case["vals"] = rng.pick([[0, 0.5, 1], [0.0, 0.5, 2.5], [0.1, 0.2, 0.3]])
         return case
+    if kind == "audit":
+        ncon = rng.randint(2, 3)
+        N = rng.randint(8, min(cfg["Nmax"], 150))
+        contests = {}
+        votes = {}
+        for j in range(ncon):
+            cid = f"K{j}"
+            ncand = rng.randint(2, 3)
+            cands = [f"{cid}c{i}" for i in range(ncand)]
+            cs = {"choice_function": W.PLURALITY, "n_winners": 1, "candidates": cands, "winner": [cands[0]],
+                  "share_to_win": None, "risk_limit": rng.pick([0.01, 0.05, 0.1, 0.2]), "cards": None,
+                  "audit_type": W.COMPARISON, "g": 0.1, "assertion_json": None}
+            cs.update(W.gen_test(rng, W.COMPARISON))
+            contests[cid] = cs
+            pw = rng.pick([0.5, 0.6, 0.8, 0.95])
+            votes[cid] = ["w" if rng.chance(pw) else rng.pick(["l", "blank"]) for _ in range(N)]
+        return {"kind": kind, "contests": contests, "votes": votes, "N": N, "first": rng.randint(2, N),
+                "err": [i for i in range(N) if rng.chance(rng.pick([0.0, 0.05]))],
+                "rate_1": rng.pick([0, 0.001, 0.05]), "rate_2": rng.pick([0, 0, 0.02]),
+                "reps": rng.pick([None, None, rng.randint(1, 6)]), "quantile": rng.pick([0.5, 0.8]), "sim_seed": rng.getrandbits(31)}
     if kind == "direct":
         dcfg = D.gen_config(rng, mode="finite")
         dcfg["random_order"] = True
@@ -262,6 +282,9 @@ def execute(case):
                     out.violate("C16.a", f"prefix{'-clamp' if clamp else ''}/direct/{name}",
                                 f"pilot {x[:6]} (N={N}, t={cfg['t']}) crosses at {k}; estimate with {sim} is {e1}")
         return out
+
+    if kind == "audit":
+        return execute_audit(ns, out, case)
 
     cs = case["contest"]
     cands = cs["candidates"]
@@ -469,6 +492,107 @@ def execute(case):
     return out
 
 
+def execute_audit(ns, out, case):
+    """C16.e at audit level: several contests in one call; each contest's estimate must be the largest among
+    ITS OWN unconfirmed assertions, without data and with the data of a first round"""
+    import random
+    N = case["N"]
+    cids = list(case["contests"])
+    world = {"use_style": True, "max_cards": N, "contests": copy.deepcopy(case["contests"]), "audit_type": W.COMPARISON,
+             "error_rate_1": case["rate_1"], "error_rate_2": case["rate_2"], "reps": case["reps"], "quantile": case["quantile"],
+             "sim_seed": case["sim_seed"]}
+    for cs in world["contests"].values():
+        cs["cards"] = N
+    audit = W.mk_audit(ns, world)
+    contests = W.mk_contests(ns, world)
+    cvrs = []
+    for i in range(N):
+        v = {cid: _vote(case["votes"][cid][i], case["contests"][cid]["candidates"]) for cid in cids}
+        cvrs.append(ns.CVR(id=f"1-1-{i + 1}", votes=v, card_in_batch=i + 1, tally_pool="1-1"))
+    for i, c in enumerate(cvrs):
+        c.sample_num = i
+    man = pd.DataFrame([{"Tray #": "1", "Tabulator Number": "1", "Batch Number": "1", "Total Ballots": N, "VBMCart.Cart number": "1"}])
+    man["cum_cards"] = man["Total Ballots"].cumsum()
+    with W.quiet():
+        ns.Assertion.set_all_margins_from_cvrs(audit=audit, contests=contests, cvr_list=cvrs)
+    if any(a.margin <= 0 for con in contests.values() for a in con.assertions.values()):
+        out.ev("skip", "non-positive margin")
+        return out
+    out.probe("multi-assertion contest") if any(len(c.assertions) > 1 for c in contests.values()) else None
+
+    def expected(data_of=None):
+        exp = {}
+        for cid, con in contests.items():
+            best = 0
+            for key, asn in con.assertions.items():
+                if asn.proved:
+                    continue
+                with W.quiet():
+                    if data_of is None:
+                        e = asn.find_sample_size(data=None, rate_1=audit.error_rate_1, rate_2=audit.error_rate_2, reps=audit.reps,
+                                                 quantile=audit.quantile, seed=audit.sim_seed)
+                    else:
+                        e = asn.find_sample_size(data=data_of[(cid, key)], prefix=True, reps=audit.reps, quantile=audit.quantile,
+                                                 seed=audit.sim_seed)
+                best = max(best, e)
+            exp[cid] = best
+        return exp
+
+    try:
+        exp = expected()
+        with W.quiet():
+            audit.find_sample_size(contests, cvrs=cvrs)
+        got = {cid: con.sample_size for cid, con in contests.items()}
+    except Exception as e:
+        out.raised("Audit.find_sample_size", e)
+        return out
+    out.ev("audit-initial", [exp, got])
+    if any(1 < v < N for v in exp.values()):
+        out.nontrivial = True
+        out.probe("estimate strictly inside (1, N)")
+    if got != exp:
+        out.violate("C16.e", "audit-max/initial", f"Audit.find_sample_size set contests to {got}; the largest estimate among each "
+                                                  f"contest's own unconfirmed assertions is {exp} (contest order {list(contests)})")
+        return out
+    # a first round, then the estimate from its data
+    n = min(case["first"], N)
+    for con in contests.values():
+        con.sample_size = n
+    try:
+        with W.quiet():
+            idx = ns.CVR.consistent_sampling(cvr_list=cvrs, contests=contests)
+            cards, order, cvr_sample, _ph = ns.Dominion.sample_from_cvrs(cvrs, man, idx)
+            mvrs = []
+            for i in idx:
+                v = copy.deepcopy(cvrs[i].votes)
+                if i in set(case["err"]):
+                    v = {cid: {} for cid in v}
+                mvrs.append(ns.CVR(id=cvrs[i].id, votes=v))
+            random.Random(5).shuffle(mvrs)
+            cvr_sample = list(cvr_sample)
+            ns.CVR.prep_comparison_sample(mvrs, cvr_sample, order)
+            ns.Assertion.set_p_values(contests=contests, mvr_sample=mvrs, cvr_sample=cvr_sample)
+            data_of = {(cid, key): asn.mvrs_to_data(mvrs, cvr_sample)[0] for cid, con in contests.items()
+                       for key, asn in con.assertions.items()}
+        out.units["draws"] += len(idx)
+        out.units["rounds"] += 1
+        proved = sum(1 for con in contests.values() for a in con.assertions.values() if a.proved)
+        exp = expected(data_of)
+        with W.quiet():
+            audit.find_sample_size(contests, cvrs=cvrs, mvr_sample=mvrs, cvr_sample=cvr_sample)
+        got = {cid: con.sample_size for cid, con in contests.items()}
+    except Exception as e:
+        out.raised("Audit.find_sample_size(data)", e)
+        return out
+    out.ev("audit-data", [exp, got, proved])
+    out.shape(f"proved={min(proved, 2)}")
+    if got != exp:
+        out.violate("C16.e", "audit-max/with-data", f"after a round of {n} cards ({proved} assertions confirmed) Audit.find_sample_size "
+                                                    f"set contests to {got}; the largest estimate among each contest's own unconfirmed "
+                                                    f"assertions is {exp} (contest order {list(contests)})")
+    return out
+
+
 def _probe_est(out, est, N):
     if est is None:
         return
@@ -483,6 +607,34 @@ def _probe_est(out, est, N):
 
 def reducers(case):
     kind = case["kind"]
+    if kind == "audit":
+        if len(case["contests"]) > 2:
+            for cid in list(case["contests"]):
+                c = copy.deepcopy(case)
+                del c["contests"][cid]
+                del c["votes"][cid]
+                yield c
+        if case["N"] > 8:
+            c = copy.deepcopy(case)
+            c["N"] = max(8, case["N"] // 2)
+            c["votes"] = {k: v[: c["N"]] for k, v in c["votes"].items()}
+            c["first"] = min(c["first"], c["N"])
+            c["err"] = [i for i in c["err"] if i < c["N"]]
+            yield c
+        if case["err"]:
+            c = copy.deepcopy(case)
+            c["err"] = []
+            yield c
+        if case["reps"] is not None:
+            c = copy.deepcopy(case)
+            c["reps"] = None
+            yield c
+        for cid, cs in case["contests"].items():
+            if cs.get("test_kwargs"):
+                c = copy.deepcopy(case)
+                c["contests"][cid]["test_kwargs"] = {}
+                yield c
+        return
     if kind == "interleave":
         for i in range(3):
             if case["n"][i] > (1 if i == 2 else 0):
